@@ -175,6 +175,11 @@ fn parse_codepoints(s: &str) -> Result<ucd_parse::Codepoints, Error> {
         let range = parse_codepoint_range(s)?;
         Ok(ucd_parse::Codepoints::Range(range))
     } else {
+        // `u32::from_str_radix` tolerates a leading `+`: only hexadecimal
+        // digits make up a code point in the registry
+        if !s.bytes().all(|b| b.is_ascii_hexdigit()) {
+            return err!("invalid codepoint: '{}'", s);
+        }
         let cp = s.parse()?;
         Ok(ucd_parse::Codepoints::Single(cp))
     }
